@@ -125,7 +125,14 @@ func (c *WarmUpTrafficShapingCalculator) coolDownTokens(currentTime uint64, pass
 	if float64(oldValue) < c.warningToken {
 		newValue = int64(float64(oldValue) + (float64(currentTime)-float64(atomic.LoadUint64(&c.lastFilledTime)))*c.threshold/1000.0)
 	} else {
-		if passQps < float64(uint32(c.threshold)/c.coldFactor) {
+		// The integer cold rate is zero whenever the threshold is below the cold factor: a bucket at
+		// or above the warning line would then never be refilled again, however long the resource
+		// stays idle. The cold rate is never applied below one token (see CalculateAllowedTokens).
+		coldQps := uint32(c.threshold) / c.coldFactor
+		if coldQps == 0 {
+			coldQps = 1
+		}
+		if passQps < float64(coldQps) {
 			newValue = int64(float64(oldValue) + float64(currentTime-atomic.LoadUint64(&c.lastFilledTime))*c.threshold/1000.0)
 		}
 	}
